@@ -255,4 +255,8 @@ candidates = c09.candidates
 FINDING_ABLATIONS = {
     "F15": (lambda case, result: result.get("cls") == "same-name-different-structure" and H.pre_unify_flip(case, result), H.abl_unify_flip),
     "F20": (H.pre_userfn, H.ablate_userfns),
+    # dask.persist(<raw collection>) (dask's generic driver) when optimization changes the root block grid:
+    # the persisted collection keeps x's name and advertised chunks but holds the blocks of the
+    # REWRITTEN grid, so the key (x.name, 0, ...) denotes differently shaped blocks in p and in x
+    "F2b": (H.pre_generic_driver, H.abl_generic_driver),
 }
